@@ -2,9 +2,11 @@ package props
 
 import (
 	"math/rand"
+	"strings"
 	"testing"
 
 	"verifharness/hist"
+	"verifharness/term"
 )
 
 func TestC16CheckOnHandMadeOutputs(t *testing.T) {
@@ -109,6 +111,19 @@ func TestC16GeneratorShape(t *testing.T) {
 	sizes := map[int]int{}
 	dups := 0
 	for _, c := range cases {
+		if m, ok := c.Meta["c16f"].(*c16fMeta); ok {
+			// stream fill-between-renders: at every render the surviving key texts are pairwise distinct
+			for _, exp := range m.Exps {
+				seen := map[string]bool{}
+				for _, p := range exp {
+					if p.K == "" || p.V == "" || seen[p.K] {
+						t.Fatalf("fill-between-renders: bad surviving pairs %v", exp)
+					}
+					seen[p.K] = true
+				}
+			}
+			continue
+		}
 		exp := c.Meta["exp"].([]C16KV)
 		sizes[len(exp)]++
 		seen := map[string]bool{}
@@ -205,5 +220,69 @@ func TestC16CheckNestedAndRenamedKeys(t *testing.T) {
 	}
 	if nt < 100 {
 		t.Errorf("only %d of 300 renamed cases are decisive", nt)
+	}
+}
+
+func TestC16FillBetweenRenders(t *testing.T) {
+	r := rand.New(rand.NewSource(16))
+	nt, stale := 0, 0
+	for i := 0; i < 400; i++ {
+		c := c16FillCase(r, i)
+		got := ExecFresh(c.Hist)
+		if m := (c16{}).Oracle(c, got); m != "" {
+			t.Fatalf("oracle rejects the real implementation (case %d): %s\n%s", i, m, c.Hist.Sexp())
+		}
+		if !c.NonTrivial {
+			continue
+		}
+		nt++
+		// what an implementation gives that forgets the pairs it has once left out: every later
+		// render of the same kind shows what the first one showed
+		m := c.Meta["c16f"].(*c16fMeta)
+		firstOf := map[string]int{}
+		bad := append([]hist.Obs{}, got...)
+		changed := false
+		for j, v := range m.Views {
+			if v == "skip" || v == "imports" {
+				continue
+			}
+			key := v + "/" + m.F.Views[j].Kind
+			if k, ok := firstOf[key]; ok {
+				if bad[j].Out != got[k].Out && len(m.Exps[j]) > len(m.Exps[k]) {
+					bad[j], changed = got[k], true
+				}
+			} else {
+				firstOf[key] = j
+			}
+		}
+		if changed {
+			stale++
+			if msg := (c16{}).Oracle(c, bad); !strings.Contains(msg, "pairs rendered") && !strings.Contains(msg, "differ from the surviving pairs") {
+				t.Fatalf("stale render accepted (case %d): %q", i, msg)
+			}
+		}
+	}
+	if nt < 250 || stale < 50 {
+		t.Errorf("%d non-trivial cases, %d with a stale variant", nt, stale)
+	}
+	// hand-made: T{a: 1, b: <hole>, c: 3}; GoString; hole.Lit(2); GoString
+	hole := term.S(term.Null())
+	d := &term.Dict{Pairs: [][2]term.Node{{term.S(term.Id("a")), term.S(term.Lit(1))}, {term.S(term.Id("b")), hole}, {term.S(term.Id("c")), term.S(term.Lit(3))}}}
+	lit := term.S(term.Id("T"), term.G("Values", d))
+	sp := &c08fSpec{Holes: []*c08fHole{{St: hole, Init: 1}}, Steps: []c08fStep{
+		{Kind: "set", Op: hist.Op{Kind: "newfile", F: 0, A: "p"}},
+		{Kind: "gostring", St: lit}, {Kind: "ext", St: hole, Items: []term.Node{term.Lit(2)}}, {Kind: "gostring", St: lit, Verb: true}}}
+	h, views := c08fBuild(sp)
+	m := &c16fMeta{Views: []string{"fmt-expr", "fmt-expr"}, F: &c08fMeta{Spec: sp, Views: views},
+		Exps: [][]C16KV{{{"a", "1"}, {"c", "3"}}, {{"a", "1"}, {"b", "2"}, {"c", "3"}}}}
+	got := ExecFresh(h)
+	if msg := c16fOracle(m, got); msg != "" {
+		t.Fatalf("hand-made history rejected: %s (%v)", msg, got)
+	}
+	if msg := c16fOracle(m, []hist.Obs{got[0], got[0]}); !strings.Contains(msg, "2 pairs rendered, 3 expected") {
+		t.Errorf("second render without the completed pair accepted: %q", msg)
+	}
+	if msg := c16fOracle(m, []hist.Obs{got[1], got[1]}); !strings.Contains(msg, "3 pairs rendered, 2 expected") {
+		t.Errorf("first render with a pair whose value is null accepted: %q", msg)
 	}
 }
